@@ -1,6 +1,7 @@
 (* C02  Only authentic packets are accepted; altered packets change nothing.
    Statements only; proofs are in proofs/PacketNumberProofs.v and proofs/ProtectProofs.v. *)
-From AQ Require Import lib.Base model.PacketNumber model.Protect gen.PnGen proofs.PacketNumberProofs proofs.ProtectProofs.
+From AQ Require Import lib.Base model.PacketNumber model.Protect gen.PnGen proofs.PacketNumberProofs proofs.ProtectProofs
+  model.KeyPhase proofs.KeyPhaseProofs.
 
 (* the current source of decode_packet_number (translated by tools/gen/c02_pure.py) is the model *)
 Theorem gen_source_is_model : forall t b e, gen_decode_packet_number t b e = decode_packet_number t b e.
@@ -95,3 +96,55 @@ Theorem retry_tag_binds : forall (tagf : list Z -> list Z), (forall a b, tagf a 
   (body' = body \/ tag' = tag) -> body' = body /\ tag' = tag.
 Proof. exact retry_tag_binds_lemma. Qed.
 Print Assumptions retry_tag_binds.
+
+(* ---- key-phase state machine (model/KeyPhase.v): "discarded without any visible effect" ---- *)
+
+(* CryptoPair.decrypt_packet: a packet that is rejected leaves the pair -- receive and send context (generation,
+   key phase) and the pending-update flag, which is ALL the state the model has -- exactly as it was *)
+Theorem rejected_packet_no_state_change : forall s p s', pair_decrypt s p = (s', Rejected) -> s' = s.
+Proof. exact rejected_packet_no_state_change_lemma. Qed.
+Print Assumptions rejected_packet_no_state_change.
+
+(* every packet that is not an unmodified sealing under some key generation is rejected, whatever its key
+   phase bit and whatever the state *)
+Theorem inauthentic_packet_rejected : forall s p, q_auth p = None -> pair_decrypt s p = (s, Rejected).
+Proof. exact inauthentic_rejected_lemma. Qed.
+Print Assumptions inauthentic_packet_rejected.
+
+(* no LATER effect either: for every continuation (local key updates, peer key updates, deliveries in any order,
+   further injections) the run with the rejected packet equals the run without it *)
+Theorem rejected_packet_no_later_effect : forall s e s' evs, step s e = (s', Some Rejected) ->
+  run s (e :: evs) = (fst (run s evs), Some Rejected :: snd (run s evs)).
+Proof. exact rejected_no_later_effect_lemma. Qed.
+Print Assumptions rejected_packet_no_later_effect.
+
+(* after any interleaving of local updates, sends, deliveries (any order, any repetition) and injected
+   inauthentic packets, the two endpoints are at most one generation apart, each endpoint's two directions are in
+   the same generation, and the key phase bit is the generation's parity *)
+Theorem key_generations_in_step : forall s, reachable s ->
+  -1 <= gen (s_a s) - gen (s_b s) <= 1 /\
+  k_gen (p_send (s_a s)) = k_gen (p_recv (s_a s)) /\ k_gen (p_send (s_b s)) = k_gen (p_recv (s_b s)) /\
+  k_phase (p_recv (s_a s)) = gen (s_a s) mod 2 /\ k_phase (p_recv (s_b s)) = gen (s_b s) mod 2.
+Proof. exact generations_in_step_lemma. Qed.
+Print Assumptions key_generations_in_step.
+
+(* a genuine packet, delivered at any later time, is rejected ONLY if it was sealed under a generation the
+   receiver has already left (aioquic keeps no old read keys); otherwise it is accepted -- under the current or
+   the next keys -- and the receiver is then in the packet's generation *)
+Theorem genuine_packet_verdict : forall s x k p, reachable s -> nth_error (hist s x) (Z.to_nat k) = Some p ->
+  exists g, q_auth p = Some g /\
+    let y := ep s (negb x) in
+    (g < gen y /\ pair_decrypt y p = (y, Rejected)) \/
+    (gen y <= g /\ exists y' upd, pair_decrypt y p = (y', Accepted upd) /\ gen y' = g /\ upd = negb (g =? gen y)).
+Proof. exact genuine_packet_verdict_lemma. Qed.
+Print Assumptions genuine_packet_verdict.
+
+(* a packet sent by an endpoint that is not behind its peer is accepted when it arrives next, and both sides
+   are then in the same generation *)
+Theorem fresh_packet_accepted : forall s x, reachable s ->
+  let s1 := fst (step s (ESend x)) in
+  gen (ep s1 (negb x)) <= gen (ep s1 x) ->
+  exists s2 upd, step s1 (EDeliver x (Zlen (hist s x))) = (s2, Some (Accepted upd)) /\
+    gen (ep s2 (negb x)) = gen (ep s2 x).
+Proof. exact fresh_packet_accepted_lemma. Qed.
+Print Assumptions fresh_packet_accepted.
